@@ -69,7 +69,7 @@ func init() {
 
 func init() {
 	Properties["C07"] = PropertySpec{
-		Rules: []string{"R-CONJ", "R-BOUNDGUARD", "R-PAIR"},
+		Rules: []string{"R-CONJ", "R-SHELLSEL", "R-BOUNDGUARD", "R-PAIR"},
 		Explanation: "Point-set semantics of loop/polygon relations, reduced to the structural contract of the two-index walk: both crossing targets must match (with the right polarity, on the right loop's cell), the relations return their documented targets, " +
 			"the two crossers mirror each other, wedges are passed in A-first order, and bound-based early rejection only uses the bound grown for sub-regions, which is kept in step with the bound.",
 		NotCovered: "the set-algebra laws on concrete pairs; wedge predicates' numeric correctness; nesting-depth parity of assembled polygons.",
